@@ -203,6 +203,16 @@ def probe(ctx, s, m, lsb0, kind, a, case):
                     ctx.ok(('interp-modes', name), True)
                 elif a0[0] == 'ok':
                     ctx.mismatch(f'C12|lsb0|interp|{name}|differs-from-msb0', case, f'{w}: msb0 {a0[1]} lsb0 property {a1[1]!s:.60} Dtype.parse {a2[1]!s:.60}')
+        # the printed forms spell the stored bits from the most significant end in both modes
+        for name, f in (('str', lambda: str(s)), ('repr', lambda: repr(s))):
+            with util.options(lsb0=False):
+                p0 = call(f)
+            with util.options(lsb0=True):
+                p1 = call(f)
+            if p0[0] == 'ok' and p1 == p0:
+                ctx.ok(('interp-modes', name, 'hex+bin' if L > 32 and L % 4 else 'plain'), True)
+            else:
+                ctx.mismatch(f'C12|lsb0|interp|{name}|differs-from-msb0', case, f'len {L}: msb0 {p0[1]!s:.80} lsb0 {p1[1]!s:.80}')
         ctx.op('interp')
     elif kind == 'eqhash':
         t = mk(Bits, m)
